@@ -6,7 +6,6 @@ use crate::physical::PhysicalPlanner;
 use crate::planner::{Expr, LogicalPlan, ScalarValue};
 use arrow::array::{Array, ArrayRef, BooleanArray};
 use arrow::record_batch::RecordBatch;
-use futures::TryStreamExt;
 use std::collections::HashMap;
 use std::sync::Arc;
 
@@ -37,8 +36,19 @@ fn run_subquery_blocking(
 ) -> Result<Vec<RecordBatch>> {
     let rt = subquery_runtime();
     std::thread::spawn(move || {
-        let stream = rt.block_on(physical.execute(0))?;
-        rt.block_on(async { stream.try_collect().await })
+        // Drain EVERY declared partition, not just partition 0: the plan of a
+        // CTE or an uncorrelated subquery over a multi-partition scan declares
+        // several, and `execute(0)` alone silently returned a fraction of its
+        // rows. Same helper the pipeline breakers (sort, aggregate, window)
+        // use to consume a multi-partition input.
+        rt.block_on(async move {
+            let (batches, _size) =
+                crate::physical::operators::spillable::collect_input_partitions_concurrently(
+                    &physical,
+                )
+                .await?;
+            Ok(batches)
+        })
     })
     .join()
     .unwrap_or_else(|_| {
